@@ -1714,7 +1714,15 @@ func (g *Gen) groupTx(w *World) TxSpec {
 		case gm.N == 0 || g.pct(20):
 			a := g.actor()
 			w.Fault("group.create")
+			if g.pct(35) {
+				return TxSpec{Signer: a, Gas: 40 * ampleGas, Msgs: []MsgSpec{{T: "grp.create", A: a, B: g.otherActor(a), N: 3}}}
+			}
 			return TxSpec{Signer: a, Gas: ampleGas, Msgs: []MsgSpec{{T: "grp.create", A: a, N: 2}}}
+		case gm.Props > 0 && g.pct(30):
+			k := 1 + uint64(g.R.Intn(int(gm.N)))
+			admin := g.actorByAddr(w, gm.Admin[k])
+			w.Fault("group.vote")
+			return TxSpec{Signer: admin, Gas: 40 * ampleGas, Msgs: []MsgSpec{{T: "grp.vote", A: admin, Id: 1 + uint64(g.R.Intn(int(gm.Props)))}}}
 		case g.pct(55):
 			k := 1 + uint64(g.R.Intn(int(gm.N)))
 			admin := g.actorByAddr(w, gm.Admin[k])
